@@ -236,6 +236,16 @@ def run_impl(case):
                                interaction_order=case['io'])
         logging.disable(logging.CRITICAL)
         try:
+            if _NCALL % 5 == 0:
+                # the SAME rank table was summarised before with other arguments (another heuristic name, MI-type or not, another
+                # interaction order): the summary asked for now is a function of the table and of THESE arguments
+                os.utime(os.path.join(d, 'pairwise_ranks.tsv'), (1_600_000_000, 1_600_000_000))
+                other = 'surrogate-SGD' if is_mi(case['heuristic']) else 'MI-numba-randomized'
+                try:
+                    outrank_task_result_summary(SimpleNamespace(output_folder=d, label_column=case['label'], heuristic=other, tldr=False,
+                                                                interaction_order=max(case['io'], 2)))
+                except Exception:          # noqa: BLE001 – the earlier call is history only
+                    pass
             outrank_task_result_summary(args)
         except Exception as e:          # noqa: BLE001
             return {'outcome': f'raises:{type(e).__name__}', 'msg': str(e)[:200]}
